@@ -477,6 +477,7 @@ func (m *model) checkBlock(got net.IPNet, rh resolvedHint) (uint64, *core.Violat
 func Exec(c Case) (res core.Result) {
 	defer func() {
 		if r := recover(); r != nil {
+			core.HarnessPanic(r)
 			res.Viol = core.Violate(c.Mode+"/panic", "allocator panicked: %v", r)
 		}
 		// only the assertions of the property being decided are armed: a case
@@ -754,6 +755,7 @@ func (m *model) runConcurrent(a allocators.Allocator, scripts [][]ConcOp) *core.
 			defer wg.Done()
 			defer func() {
 				if r := recover(); r != nil {
+					core.HarnessPanic(r)
 					report(core.Violate(m.c.Mode+"/panic", "allocator panicked in concurrent phase: %v", r))
 				}
 			}()
